@@ -11,7 +11,8 @@ seeds = sorted(d for d in os.listdir('/verif/seeded') if re.match(r'C\d\d-\d+$',
 head = subprocess.run(['git','-C','/repo','rev-parse','HEAD'],capture_output=True,text=True).stdout.strip()
 def mode_of(demo):
     m = re.search(r'--test (\S+)`', demo)
-    feat = 'verif-hooks' if '--features verif-hooks' in demo else ''
+    fm = re.search(r'--features (\S+)', demo)
+    feat = fm.group(1) if fm else ''
     if demo.startswith('copy demo.rs to rodbus/tests/'): return 'rodbus_tests', m.group(1), feat
     if demo.startswith('copy demo.rs to ffi/rodbus-ffi/tests/'): return 'ffi_tests', m.group(1), ''
     f = re.search(r'--offline (\S+)`', demo).group(1)
